@@ -78,10 +78,11 @@ def coq_files():
 
 
 def write_coqproject():
-    """_CoqProject lists every .v under Model/ Spec/ Proofs/ Props/ (Extract/*.v are compiled
-       separately, in the directory where the extracted OCaml must land)"""
+    """_CoqProject lists every .v under Model/ Gen/ Spec/ Proofs/ Props/ (Extract/*.v are compiled
+       separately, in the directory where the extracted OCaml must land); Gen/ = models generated from the Go
+       sources by tools/go2coq (regen_models)"""
     files = []
-    for d in ("Model", "Spec", "Proofs", "Props"):
+    for d in ("Model", "Gen", "Spec", "Proofs", "Props"):
         files += sorted(os.path.relpath(f, COQ) for f in glob.glob(os.path.join(COQ, d, "*.v")))
     txt = "-Q . SV\n" + "\n".join(files) + "\n"
     cp = os.path.join(COQ, "_CoqProject")
@@ -105,6 +106,94 @@ def coq_build(targets, timeout=3000):
         ensure_makefile()
         rc, out = sh(["timeout", str(timeout), "make", "-j16"] + targets, cwd=COQ)
     return rc, out
+
+
+def build_go2coq():
+    """tools/go2coq (Go -> Gallina translator, stdlib only) -> build/go2coq; rebuilt when a source is newer"""
+    src = os.path.join(VERIF, "tools", "go2coq")
+    out = os.path.join(BUILD, "go2coq")
+    deps = glob.glob(os.path.join(src, "*.go")) + [os.path.join(src, "go.mod")]
+    if os.path.exists(out) and all(os.path.getmtime(out) >= os.path.getmtime(x) for x in deps):
+        return 0, "up to date"
+    os.makedirs(BUILD, exist_ok=True)
+    rc, o = sh(["timeout", "600", "go", "build", "-o", out + ".new", "."], cwd=src, env=GOENV)
+    if rc == 0:
+        os.replace(out + ".new", out)
+    return rc, o
+
+
+def regen_models(pid):
+    """If lib/go2coq.d/<pid>.json exists: regenerate coq/Gen/<pid>Gen.v from REPO's working tree (the file is
+       rewritten only when its text changes, so make recompiles exactly then). The caller holds Lock("coq").
+       Returns (info for the evidence or None, problem text or None)."""
+    spec = os.path.join(VERIF, "lib", "go2coq.d", pid + ".json")
+    if not os.path.exists(spec):
+        return None, None
+    t0 = time.time()
+    info = {"translator": "tools/go2coq", "spec": os.path.relpath(spec, VERIF), "source_tree": REPO}
+    rc, out = build_go2coq()
+    if rc != 0:
+        info["error"] = "tools/go2coq does not build"
+        return info, "translator: tools/go2coq does not build: " + out[-300:]
+    rc, out = sh([os.path.join(BUILD, "go2coq"), "-repo", REPO, "-verif", VERIF, "-spec", spec], env=GOENV, timeout=600)
+    res = {}
+    for l in out.splitlines():
+        if l.startswith("{"):
+            try:
+                res = json.loads(l)
+            except ValueError:
+                pass
+    info["wall_s"] = round(time.time() - t0, 2)
+    if rc != 0 or res.get("error"):
+        msg = res.get("error") or out.strip()[-300:]
+        info["error"] = msg
+        return info, "translator: " + msg
+    gen = res.get("out", "")
+    info.update({"generated_file": gen, "functions": res.get("functions", []),
+                 "rewritten_this_run": bool(res.get("written"))})
+    # does the text generated from the current tree differ from the committed one?
+    rc, committed = sh(["git", "-C", VERIF, "show", "HEAD:" + gen])
+    try:
+        now = open(os.path.join(VERIF, gen), errors="replace").read()
+        info["differs_from_committed"] = (rc != 0) or committed != now
+    except OSError:
+        info["differs_from_committed"] = True
+    return info, None
+
+
+def go2coq_selftest(pid):
+    """translator + GoSem.v against the real Go compiler (bin/go2coq-selftest): the source text of the spec's
+       functions runs on boundary-biased inputs, the generated Gallina functions are evaluated by coqc on the same
+       inputs. Returns (summary dict, problem text or None). Gen/<pid>Gen.vo must be up to date."""
+    spec = os.path.join(VERIF, "lib", "go2coq.d", pid + ".json")
+    d = os.path.join(BUILD, "go2coq-selftest", pid)
+    t0 = time.time()
+    shutil.rmtree(d, ignore_errors=True)
+    rc, out = sh([os.path.join(BUILD, "go2coq"), "-repo", REPO, "-verif", VERIF, "-spec", spec, "-selftest", d], env=GOENV, timeout=600)
+    if rc != 0:
+        return {"error": out[-300:]}, "translator self-test: cannot emit the test program: " + out[-300:]
+    rc, out = sh("timeout 600 go build -o selftest . && ./selftest > selftest.v", cwd=d, env=GOENV)
+    if rc != 0:
+        return {"error": out[-300:]}, "translator self-test: the test program does not build/run: " + out[-300:]
+    txt = open(os.path.join(d, "selftest.v")).read()
+    ncases = sum(int(n) for n in re.findall(r"^\(\* \w+: (\d+) cases \*\)", txt, re.M))
+    with Lock("coq"):
+        rc, out = sh(["timeout", "1200", "coqc", "-Q", COQ, "SV", "selftest.v"], cwd=d)
+    res = {"functions": len(re.findall(r"^Goal ", txt, re.M)), "cases": ncases, "agree": rc == 0, "wall_s": round(time.time() - t0, 2)}
+    if rc != 0:
+        return res, "translator self-test: a generated function disagrees with the Go function it was generated from: " + out.strip()[-400:]
+    return res, None
+
+
+def regen_all_models():
+    """bin/setup: regenerate every generated model before the Coq build"""
+    ok = True
+    for f in sorted(glob.glob(os.path.join(VERIF, "lib", "go2coq.d", "C*.json"))):
+        info, problem = regen_models(os.path.basename(f)[:-5])
+        if problem:
+            print(problem)
+            ok = False
+    return ok
 
 
 def forbidden_scan():
@@ -434,6 +523,10 @@ def main(argv):
     notes = []
 
     # ---------- (1) Coq ----------
+    with Lock("coq"):
+        gen_info, gen_problem = regen_models(pid)
+    if gen_problem:
+        problems.append(gen_problem)
     targets = ["Props/%s.vo" % pid]
     rc, out = coq_build(targets)
     coq_ok = rc == 0
@@ -447,7 +540,11 @@ def main(argv):
             coq_ok = False
             coq_log = pout[-4000:]
     if not coq_ok:
-        problems.append("coq: Props/%s.v or a dependency does not compile" % pid)
+        m_ = re.search(r'File "\./([^"]+)", line (\d+)', coq_log)
+        problems.append("coq: Props/%s.v or a dependency does not compile" % pid
+                        + (" (first error: coq/%s line %s)" % (m_.group(1), m_.group(2)) if m_ else "")
+                        + ("; the model generated from the source, %s, differs from the committed one" % gen_info.get("generated_file")
+                           if gen_info and gen_info.get("differs_from_committed") else ""))
     bad_ax = [a for a in axioms if a not in ALLOWED_AXIOMS]
     if bad_ax:
         problems.append("coq: theorem depends on non-stdlib axioms: " + ", ".join(bad_ax))
@@ -466,6 +563,11 @@ def main(argv):
         bad_chk = [a for a in chk_axioms if a.split(".")[-1] not in {x.split(".")[-1] for x in ALLOWED_AXIOMS}]
         if bad_chk:
             problems.append("coqchk: axioms outside the standard library: " + ", ".join(bad_chk))
+    if gen_info and not gen_problem and coq_ok and (tier == "thorough" or os.environ.get("VERIF_GO2COQ_SELFTEST") == "1"):
+        st_res, st_problem = go2coq_selftest(pid)
+        gen_info["selftest"] = st_res
+        if st_problem:
+            problems.append(st_problem)
     forb = forbidden_scan()
     if forb:
         problems.append("coq: forbidden vernacular: " + "; ".join(forb[:5]))
@@ -662,6 +764,7 @@ def main(argv):
                 "model_output_classes": classes,
                 "change_amplification": {"fingerprint_files": len(fp_now), "baseline_recorded": fp_base is not None,
                                          "changed_files": changed_files, "extra_rounds": amp_rounds},
+                **({"generated_models": gen_info} if gen_info else {}),
             },
             "modelled_not_verified": P.get("modelled", []),
         },
